@@ -368,13 +368,17 @@ func finish(c *Ctx, r *Report, verifDir string, known []KnownFinding, seed int, 
 		"explanation":         r.Explanation,
 		"exhaustive":          true,
 		"known_findings":      nKnown,
-		"notes":               r.Notes,
 	}
+	cov["notes"] = r.Notes
 	for k, v := range loadInfo {
 		cov[k] = v
 	}
 	for k, v := range r.Extra {
 		cov[k] = v
+	}
+	r.Assumptions = append(r.Assumptions, "trusted base: go/packages, go/types, go/cfg, text/template/parse and this analyser's own path enumerator / shape extractor")
+	if r.Notes == nil {
+		r.Notes = []string{}
 	}
 	ev := map[string]interface{}{
 		"property_id": r.Prop,
